@@ -315,6 +315,12 @@ func (e *Exec) evalExternal(call *ast.CallExpr, st *State, ctx *Ctx) []string {
 		if len(call.Args) == 2 {
 			return []string{"(pathJoin " + arg(0) + " " + arg(1) + ")"}
 		}
+	case "path/filepath.Glob":
+		e.note("filepath.Glob(pat) is the uninterpreted pair globRawS / globRawE of the pattern: the directory does not change during an evaluation (assumed)")
+		return []string{"(globRawS " + arg(0) + ")", "(globRawE " + arg(0) + ")"}
+	case "path/filepath.EvalSymlinks":
+		e.note("filepath.EvalSymlinks(p) is the uninterpreted pair evalSymlinksF / evalSymlinksE of the path: links do not change during an evaluation (assumed)")
+		return []string{"(evalSymlinksF " + arg(0) + ")", "(evalSymlinksE " + arg(0) + ")"}
 	case "os.Environ":
 		e.note("os.Environ() is the constant osEnviron: the environment does not change during an evaluation (assumed)")
 		return []string{"(Slice osEnviron)"}
